@@ -14,9 +14,21 @@
 //!                                     2^n amplitudes, Psi a 2^n x 3 matrix (row-major), all with fixed non-symmetric entries
 //! Answer   `ok <n> <square().matrix()> | <n> <matrix()> | <square().apply(psi1)> | <square().apply_slice(psi2)> |
 //!           <square().apply_mat(Psi)>`   or   `err <Constructor>`   or `panic`
+//!
+//! Request  `sq2 <term>`               (all parameters Direct) the returned gate squared again
+//! Answer   `first err ..` | `ok <n> <square().square().matrix()> | <n> <square().matrix()>` | `err ..`
+//!
+//! Request  `sqconj <term>`            (gates with is_stabilizer(), at most 3 qubits) Pauli conjugation by the returned gate
+//! Answer   `ok <n> <square().matrix()> | <k> ; r ; r ; .. | r ; r ; ..`   first list: square().conjugate(P) for all 4^k
+//!           strings P (lexicographic in I Z X Y, digits 0..3); second list: the original's conjugate applied twice (signs
+//!           xor-ed); r = `ok <flip> <digit>*k` or `err`
+//!
+//! Errors are answered with their payload: `err OpNotImplemented <op> <gate>` (blanks as `_`, parameter lists of
+//! RX RY RZ U1 U2 U3 removed from the gate description), `err ReferenceArithmetic`.
 use q1t_harness::*;
 use q1t_harness::gate;
 use q1tsim::arithmetic::Square;
+use q1tsim::stabilizer::PauliOp;
 use q1tsim::gates::*;
 use std::cell::{Cell, RefCell};
 use std::rc::Rc;
@@ -123,12 +135,65 @@ fn lp1(cx: &mut Cx, iters: usize) -> TG<Loop>
     (format!("Loop l {} b1 1 2 T 1 0 {} 1 0", iters, s), Loop::new("l", iters, body))
 }
 
+/// a description without the parameter lists of RX RY RZ U1 U2 U3, blanks as `_`
+fn skeleton(desc: &str) -> String
+{
+    let cs: Vec<char> = desc.chars().collect();
+    let mut out = String::new();
+    let mut i = 0;
+    while i < cs.len()
+    {
+        if cs[i] == '(' && i >= 2
+        {
+            let name: String = cs[i - 2..i].iter().collect();
+            if ["RX", "RY", "RZ", "U1", "U2", "U3"].contains(&name.as_str())
+            {
+                while i < cs.len() && cs[i] != ')' { i += 1; }
+                i += 1;
+                continue;
+            }
+        }
+        out.push(if cs[i].is_whitespace() { '_' } else { cs[i] });
+        i += 1;
+    }
+    if out.is_empty() { "-".to_string() } else { out }
+}
+
+/// Clifford loops (bodies that flip signs): one, two and three qubits
+fn lpc1(iters: usize) -> TG<Loop>
+{
+    let mut body = Composite::new("c1", 1);
+    body.add_gate(X::new(), &[0]);
+    body.add_gate(S::new(), &[0]);
+    (format!("Loop l {} c1 1 2 X 1 0 S 1 0", iters), Loop::new("l", iters, body))
+}
+fn lpc2(iters: usize) -> TG<Loop>
+{
+    let mut body = Composite::new("c2", 2);
+    body.add_gate(H::new(), &[0]);
+    body.add_gate(CX::new(), &[1, 0]);
+    body.add_gate(Y::new(), &[1]);
+    body.add_gate(Sdg::new(), &[0]);
+    (format!("Loop l {} c2 2 4 H 1 0 CX 2 1 0 Y 1 1 Sdg 1 0", iters), Loop::new("l", iters, body))
+}
+fn lpc3(iters: usize) -> TG<Loop>
+{
+    let mut body = Composite::new("c3", 3);
+    body.add_gate(CX::new(), &[0, 2]);
+    body.add_gate(V::new(), &[1]);
+    body.add_gate(CZ::new(), &[2, 1]);
+    body.add_gate(X::new(), &[0]);
+    body.add_gate(Swap::new(), &[1, 0]);
+    body.add_gate(Z::new(), &[2]);
+    (format!("Loop l {} c3 3 6 CX 2 0 2 V 1 1 CZ 2 2 1 X 1 0 Swap 2 1 0 Z 1 2", iters), Loop::new("l", iters, body))
+}
+
 fn err_name(e: &q1tsim::error::Error) -> String
 {
     match e
     {
         q1tsim::error::Error::ReferenceArithmetic => "err ReferenceArithmetic".to_string(),
-        q1tsim::error::Error::OpNotImplemented(_, _) => "err OpNotImplemented".to_string(),
+        q1tsim::error::Error::OpNotImplemented(op, gate) => format!("err OpNotImplemented {} {}", skeleton(op), skeleton(gate)),
         other => format!("err Other {:?}", other).replace('\n', " ")
     }
 }
@@ -144,8 +209,26 @@ fn gen_amps(rng: &mut SplitMix64, n: usize) -> Vec<num_complex::Complex64>
     (0..n).map(|i| num_complex::Complex64::new((rng.range(-63, 63) as f64 + 0.5) / 32.0, (rng.range(-63, 63) as f64 + (i % 2) as f64 * 0.25) / 32.0)).collect()
 }
 
+thread_local! { static SEEN: RefCell<std::collections::HashSet<String>> = RefCell::new(std::collections::HashSet::new()); }
+/// the parameter-free cases come back in every pass: their sq2 / sqconj requests are emitted once
+fn first_time(req: &str) -> bool { SEEN.with(|s| s.borrow_mut().insert(req.to_string())) }
+
+const OPS: [PauliOp; 4] = [PauliOp::I, PauliOp::Z, PauliOp::X, PauliOp::Y];
+
+/// `g.conjugate` applied `times` times to the string with the given digits: `ok <flip> <digits>` or `err`
+fn conj_times(g: &dyn Gate, digits: &[usize], times: usize) -> String
+{
+    let mut v: Vec<PauliOp> = digits.iter().map(|&d| OPS[d]).collect();
+    let mut flip = false;
+    for _ in 0..times
+    {
+        match g.conjugate(&mut v) { Ok(f) => { flip ^= f; }, Err(_) => return "err".to_string() }
+    }
+    format!("ok {} {}", flip as u8, join(&v.iter().map(|o| o.to_bits()).collect::<Vec<_>>()))
+}
+
 fn emit<G>(out: &mut Out, mut cx: Cx, tg: TG<G>)
-where G: Square + Gate, G::SqType: Gate
+where G: Square + Gate, G::SqType: Square + Gate, <G::SqType as Square>::SqType: Gate
 {
     let (term, g) = tg;
     let req = if cx.mask.chars().all(|k| k == 'd') { format!("square {}", term) } else { format!("squarep {} {}", cx.mask, term) };
@@ -186,6 +269,41 @@ where G: Square + Gate, G::SqType: Gate
             }
         }));
         out.case(&req, &ans.unwrap_or_else(|| "panic".to_string()));
+    }
+    if !cx.mask.chars().all(|k| k == 'd') { return; }
+    // the returned gate squared again
+    if first_time(&format!("sq2 {}", term))
+    {
+        let ans = catch(std::panic::AssertUnwindSafe(|| {
+            match g.square()
+            {
+                Err(e) => format!("first {}", err_name(&e)),
+                Ok(sq) => match sq.square()
+                {
+                    Ok(sq2) => format!("ok {} | {}", show_mat(&sq2.matrix()), show_mat(&sq.matrix())),
+                    Err(e) => err_name(&e)
+                }
+            }
+        }));
+        out.case(&format!("sq2 {}", term), &ans.unwrap_or_else(|| "panic".to_string()));
+    }
+    // stabilizer view of the returned gate
+    let k = g.nr_affected_bits();
+    if g.is_stabilizer() && k <= 3 && first_time(&format!("sqconj {}", term))
+    {
+        let ans = catch(std::panic::AssertUnwindSafe(|| {
+            match g.square()
+            {
+                Err(e) => err_name(&e),
+                Ok(sq) => {
+                    let strings: Vec<Vec<usize>> = (0..4usize.pow(k as u32)).map(|code| (0..k).map(|p| (code / 4usize.pow((k - 1 - p) as u32)) % 4).collect()).collect();
+                    let a: Vec<String> = strings.iter().map(|d| conj_times(&sq, d, 1)).collect();
+                    let b: Vec<String> = strings.iter().map(|d| conj_times(&g, d, 2)).collect();
+                    format!("ok {} | {} ; {} | {}", show_mat(&sq.matrix()), k, a.join(" ; "), b.join(" ; "))
+                }
+            }
+        }));
+        out.case(&format!("sqconj {}", term), &ans.unwrap_or_else(|| "panic".to_string()));
     }
 }
 
@@ -265,6 +383,30 @@ fn pass(out: &mut Out, rng: &mut SplitMix64, kinds: &str)
     case!(cx, kron(c(kron(ry(&mut cx), crz(&mut cx))), k0("V", V::new())));
     case!(cx, kron(k0("T", T::new()), k0("CV", CV::new())));
     case!(cx, kron(k0("CS", CS::new()), k0("V", V::new())));
+    // Clifford-only gates (their squares are also compared in the stabilizer view: request sqconj)
+    case!(cx, lpc1(1)); case!(cx, lpc1(2)); case!(cx, lpc1(3)); case!(cx, lpc1(4));
+    case!(cx, lpc2(1)); case!(cx, lpc2(2)); case!(cx, lpc2(3));
+    case!(cx, lpc3(1)); case!(cx, lpc3(2)); case!(cx, lpc3(5));
+    case!(cx, kron(lpc1(1), k0("H", H::new())));
+    case!(cx, kron(k0("S", S::new()), lpc1(3)));
+    case!(cx, kron(lpc2(1), k0("V", V::new())));
+    case!(cx, kron(k0("Y", Y::new()), lpc2(2)));
+    case!(cx, kron(lpc1(1), lpc2(1)));
+    case!(cx, kron(kron(lpc1(2), k0("Sdg", Sdg::new())), lpc1(1)));
+    case!(cx, kron(k0("H", H::new()), k0("S", S::new())));
+    case!(cx, kron(k0("CX", CX::new()), k0("Vdg", Vdg::new())));
+    case!(cx, kron(k0("Sdg", Sdg::new()), k0("CY", CY::new())));
+    case!(cx, kron(kron(k0("V", V::new()), k0("S", S::new())), k0("H", H::new())));
+    case!(cx, kron(k0("Swap", Swap::new()), k0("Y", Y::new())));
+    case!(cx, c(lpc1(2)));
+    case!(cx, c(lpc2(1)));
+    // the trait's default square (an error with a payload) at every depth
+    case!(cx, c(c(u3(&mut cx))));
+    case!(cx, cu3(&mut cx));
+    case!(cx, c(cu3(&mut cx)));
+    case!(cx, kron(k0("H", H::new()), u3(&mut cx)));
+    case!(cx, kron(c(u3(&mut cx)), lp1(&mut cx, 1)));
+    case!(cx, c(kron(kron(rx(&mut cx), u3(&mut cx)), k0("T", T::new()))));
 }
 
 fn main()
